@@ -40,6 +40,7 @@ package keyed
 //@   stable SH2: forall key: any {this.routines[key]} :: in(this.routines, key) ==> this.routines[key].exitedCh == rlast(this.routines[key]) || (this.routines[key].exitedCh == nil && (rlast(this.routines[key]) == nil || closed(rlast(this.routines[key]))))
 //@   inv R1[C07]: forall rr: *runningRoutine {rr.k} :: rr.k == this && rr.ctx != nil && !rr.exited ==> rr.exitedCh != nil && chof(rr.ctx) == rr.exitedCh
 //@   inv R2[C07]: forall rr: *runningRoutine {rr.k} :: rr.k == this && rr.ctx != nil && rr.exited ==> chof(rr.ctx) != nil && xdone(chof(rr.ctx))
+//@   inv D0[C06]: forall rr: *runningRoutine {rr.k} :: rr.k == this && rr.deferRemove != nil ==> this.releaseDelay != 0
 //@   inv K3[C06]: forall key: any {this.routines[key]} :: in(this.routines, key) ==> this.routines[key].key == key
 //
 //@ ginv E0: forall ch: ref {xowner(ch)} :: xowner(ch) != nil ==> ch != nil && allocated(ch) && madein(ch, "(*runningRoutine).start")
@@ -108,10 +109,14 @@ package keyed
 //@   requires k != nil
 //
 //@ func (*Keyed).setContextLocked
-//@   props C07 C13
+//@   props C06 C07 C13
 //@   opt holds = mtx
 //@   opt frame = skip
 //@   requires k != nil
+//@   ensures keepkeys[C06]: k.routines == old(k.routines) && (forall key: any {k.routines[key]} :: in(k.routines, key) == old(in(k.routines, key)) && k.routines[key] == old(k.routines[key]))
+//@   ensures keeptimers[C06]: forall rr: *runningRoutine {rr.deferRemove} :: rr.deferRemove == old(rr.deferRemove)
+//@   loop 1 invariant keepkeys: k.routines == old(k.routines) && (forall key: any {k.routines[key]} :: in(k.routines, key) == old(in(k.routines, key)) && k.routines[key] == old(k.routines[key]))
+//@   loop 1 invariant keeptimers: forall rr: *runningRoutine {rr.deferRemove} :: rr.deferRemove == old(rr.deferRemove)
 //@   loop 1 invariant inv: ginvs() && k.routines != nil && k.ctorCb != nil
 //@   loop 1 invariant chain: forall key: any {k.routines[key]} :: in(k.routines, key) ==> k.routines[key].exitedCh == rlast(k.routines[key]) || (k.routines[key].exitedCh == nil && (rlast(k.routines[key]) == nil || closed(rlast(k.routines[key]))))
 //@   loop 1 invariant records: forall rr: *runningRoutine {rr.k} :: rr.k == k && rr.ctx != nil ==> chof(rr.ctx) != nil && ((!rr.exited ==> rr.exitedCh != nil && chof(rr.ctx) == rr.exitedCh) && (rr.exited ==> xdone(chof(rr.ctx))))
@@ -127,17 +132,28 @@ package keyed
 //@   opt frame = skip
 //@   requires k != nil
 //@   assert unlock 1: present: existed == csold(in(k.routines, key)) && in(k.routines, key) && k.routines[key].deferRemove == nil && v == k.routines[key]
+//@   assert unlock 1: results: result1 == existed && result0 == k.routines[key].data
+//@   assert unlock 1: others: forall key2: any {k.routines[key2]} :: key2 != key ==> in(k.routines, key2) == csold(in(k.routines, key2)) && k.routines[key2] == csold(k.routines[key2])
 //@   assert unlock 1: keepretry: !start && csold(in(k.routines, key)) ==> k.routines[key].deferRetry == csold(k.routines[key].deferRetry)
 //
 //@ func (*Keyed).RemoveKey
 //@   props C06 C07 C13
 //@   opt frame = skip
 //@   requires k != nil
+//@   assert unlock 1: existed: existed == csold(in(k.routines, key)) && result == existed
+//@   assert unlock 1: nodelay: k.releaseDelay == 0 ==> !in(k.routines, key)
+//@   assert unlock 1: delayed: existed && in(k.routines, key) ==> k.routines[key] == csold(k.routines[key]) && k.routines[key].deferRemove != nil
+//@   assert unlock 1: stays: existed && k.releaseDelay != 0 && !(csold(k.routines[key].exited) && !csold(k.routines[key].success)) ==> in(k.routines, key)
+//@   assert unlock 1: others: forall key2: any {k.routines[key2]} :: key2 != key ==> in(k.routines, key2) == csold(in(k.routines, key2)) && k.routines[key2] == csold(k.routines[key2])
+//@   assert unlock 1: othertimers: forall rr: *runningRoutine {rr.deferRemove} :: rr != csold(k.routines[key]) ==> rr.deferRemove == csold(rr.deferRemove)
 //
 //@ func (*Keyed).GetKey
 //@   props C06 C13
 //@   opt frame = skip
 //@   requires k != nil
+//@   assert unlock 1: existed: existed == in(k.routines, key) && (existed ==> v == k.routines[key])
+//@   assert unlock 1: unchanged: forall key2: any {k.routines[key2]} :: in(k.routines, key2) == csold(in(k.routines, key2)) && k.routines[key2] == csold(k.routines[key2])
+//@   assert unlock 1: results: result1 == in(k.routines, key) && (result1 ==> result0 == k.routines[key].data)
 //
 //@ func (*Keyed).RestartRoutine
 //@   props C07 C13
@@ -145,10 +161,15 @@ package keyed
 //@   requires k != nil
 //
 //@ func (*Keyed).restartRoutineLocked
-//@   props C07 C13
+//@   props C06 C07 C13
 //@   opt holds = mtx
 //@   opt frame = skip
 //@   requires k != nil
+//@   ensures keepkeys[C06]: k.routines == old(k.routines) && (forall key2: any {k.routines[key2]} :: in(k.routines, key2) == old(in(k.routines, key2)) && k.routines[key2] == old(k.routines[key2]))
+//@   ensures keeptimers[C06]: forall rr: *runningRoutine {rr.deferRemove} :: rr.deferRemove == old(rr.deferRemove)
+//@   ensures existed[C06]: result0 == old(in(k.routines, key))
+//@   loop 1 invariant keepkeys: k.routines == old(k.routines) && (forall key2: any {k.routines[key2]} :: in(k.routines, key2) == old(in(k.routines, key2)) && k.routines[key2] == old(k.routines[key2]))
+//@   loop 1 invariant keeptimers: forall rr: *runningRoutine {rr.deferRemove} :: rr.deferRemove == old(rr.deferRemove)
 //@   loop 1 invariant inv: true
 //@   loop 1 invariant chain: forall key: any {k.routines[key]} :: in(k.routines, key) ==> k.routines[key].exitedCh == rlast(k.routines[key]) || (k.routines[key].exitedCh == nil && (rlast(k.routines[key]) == nil || closed(rlast(k.routines[key]))))
 //
@@ -158,10 +179,16 @@ package keyed
 //@   requires k != nil
 //
 //@ func (*Keyed).resetRoutineLocked
-//@   props C07 C13
+//@   props C06 C07 C13
 //@   opt holds = mtx
 //@   opt frame = skip
 //@   requires k != nil
+//@   ensures keepkeys[C06]: k.routines == old(k.routines) && (forall key2: any {k.routines[key2]} :: in(k.routines, key2) == old(in(k.routines, key2)) && (key2 != key ==> k.routines[key2] == old(k.routines[key2])))
+//@   ensures keeptimers[C06]: forall rr: *runningRoutine {rr.deferRemove} :: rr != old(k.routines[key]) && rr != k.routines[key] ==> rr.deferRemove == old(rr.deferRemove)
+//@   ensures pendingkept[C06]: old(in(k.routines, key)) ==> (k.routines[key].deferRemove != nil) == old(k.routines[key].deferRemove != nil)
+//@   ensures existed[C06]: result0 == old(in(k.routines, key))
+//@   loop 1 invariant keepkeys: k.routines == old(k.routines) && (forall key2: any {k.routines[key2]} :: in(k.routines, key2) == old(in(k.routines, key2)) && k.routines[key2] == old(k.routines[key2]))
+//@   loop 1 invariant keeptimers: forall rr: *runningRoutine {rr.deferRemove} :: rr.deferRemove == old(rr.deferRemove)
 //@   loop 1 invariant chain: forall key: any {k.routines[key]} :: in(k.routines, key) ==> k.routines[key].exitedCh == rlast(k.routines[key]) || (k.routines[key].exitedCh == nil && (rlast(k.routines[key]) == nil || closed(rlast(k.routines[key]))))
 //@   opt inline-calls = start
 //@   ghost aftercall newRunningRoutine: rlast(ret) := rlast(csold(k.routines[key]))
